@@ -387,14 +387,37 @@ theorem validSampler_sound_gaussian (o : Orc σ κ) (c : Call) (attempts : Nat) 
     ∃ k, Validated s (gaussV o c attempts s).os (gaussV o c attempts s).st k :=
   gaussV_sound o c attempts s
 
-/-- ObstacleBasedValidStateSampler with DiscreteMotionValidator::checkMotion(temp, state, lastValid), for every
-segment count and every interpolation function with `interpolate(a, b, 0) = a` (finding C08-F18: SO(3)'s slerp does
-not satisfy this bit for bit) -/
+/-- ObstacleBasedValidStateSampler as fixed by 96c4da7bb (`if (fail.second == 0.0) copyState(state, temp)` after
+DiscreteMotionValidator::checkMotion(temp, state, fail)), for every interpolation function — the hypothesis
+`interpolate(a, b, 0) = a` is gone.  What remains assumed: `validSegmentCount ≥ 1` (it is 0 only for two states at
+distance 0, where the code computes `lastValid.second = -1/0` and interpolates at `-inf`). -/
 theorem validSampler_sound_obstacleBased (o : Orc σ κ) (segs : σ → σ → Nat) (interp : σ → σ → Nat → Nat → σ)
-    (h0 : ∀ a b n, interp a b 0 n = a) (c : Call) (attempts : Nat) (s : OS σ κ) :
+    (hseg : ∀ a b, 1 ≤ segs a b) (c : Call) (attempts : Nat) (s : OS σ κ) :
     (obstacleV o segs interp c attempts s).ok = true →
     ∃ k, Validated s (obstacleV o segs interp c attempts s).os (obstacleV o segs interp c attempts s).st k :=
-  obstacleV_sound o segs interp h0 c attempts s
+  obstacleV_sound o segs interp hseg c attempts s
+
+/-- the code before the fix was sound only for interpolation functions with `interpolate(a, b, 0) = a` -/
+theorem obstacleBased_old_sound_partial (o : Orc σ κ) (segs : σ → σ → Nat) (interp : σ → σ → Nat → Nat → σ)
+    (h0 : ∀ a b n, interp a b 0 n = a) (c : Call) (attempts : Nat) (s : OS σ κ) :
+    (obstacleVOld o segs interp c attempts s).ok = true →
+    ∃ k, Validated s (obstacleVOld o segs interp c attempts s).os (obstacleVOld o segs interp c attempts s).st k :=
+  obstacleVOld_sound o segs interp h0 c attempts s
+
+/-- witness oracle of finding F27: first sample (10) invalid, second (11) valid, three segments, the first interpolated
+state invalid; `interp` at index 0 gives 100, not its first argument (as SO(3) slerp at t = 0 is an ulp off) -/
+def f27Orc : Orc Nat Nat := ⟨fun k => 10 + k, fun k => (k == 1, 0)⟩
+def f27Interp : Nat → Nat → Nat → Nat → Nat := fun _ _ j _ => 100 + j
+
+/-- F27 (fixed by 96c4da7bb): the old code returned with success a state that was never validity-checked -/
+theorem obstacleBased_old_returns_unvalidated :
+    (obstacleVOld f27Orc (fun _ _ => 3) f27Interp .uniform 4 {}).ok = true ∧
+    (obstacleVOld f27Orc (fun _ _ => 3) f27Interp .uniform 4 {}).st = 100 ∧
+    ∀ e ∈ (obstacleVOld f27Orc (fun _ _ => 3) f27Interp .uniform 4 {}).os.log, e.1 ≠ 100 := by decide
+
+-- the fixed code returns the validated `temp` (11) on the same oracle
+example : (obstacleV f27Orc (fun _ _ => 3) f27Interp .uniform 4 {}).st = 11 ∧
+    (11, true, 0) ∈ (obstacleV f27Orc (fun _ _ => 3) f27Interp .uniform 4 {}).os.log := by decide
 
 /-- BridgeTestValidStateSampler: the returned midpoint is the state that was tested last -/
 theorem validSampler_sound_bridgeTest (o : Orc σ κ) (mid : σ → σ → σ) (c : Call) (attempts : Nat) (s : OS σ κ) :
